@@ -4,7 +4,7 @@
    Prints  id \t result  in the same notation the harness uses for the implementation. *)
 
 (* ---- numbers in hex <-> N, by bit manipulation only ---- *)
-let n_of_hexs (s : string) : n =
+let n_of_hexs (s : String.t) : n =
   let acc = ref N0 in
   String.iter (fun c ->
     let d = hexval c in
@@ -15,7 +15,7 @@ let n_of_hexs (s : string) : n =
               | Npos p -> Npos (if b then XI p else XO p))) bits) s;
   !acc
 
-let hexs_of_n (x : n) : string =
+let hexs_of_n (x : n) : String.t =
   match x with
   | N0 -> "0"
   | Npos p ->
@@ -37,7 +37,7 @@ let hexs_of_n (x : n) : string =
 let rec nat_of_int (i : int) : nat = if i <= 0 then O else S (nat_of_int (i - 1))
 
 (* ---- registry file -> universe ---- *)
-let rec parse_fty (s : string) (p : int ref) : fty =
+let rec parse_fty (s : String.t) (p : int ref) : fty =
   let rest () = String.sub s !p (String.length s - !p) in
   let starts x = let r = rest () in String.length r >= String.length x && String.sub r 0 (String.length x) = x in
   let num () =
@@ -63,16 +63,16 @@ let rec parse_fty (s : string) (p : int ref) : fty =
 
 let fty_of_string s = parse_fty s (ref 0)
 
-let parse_tag (s : string) : tag =
+let parse_tag (s : String.t) : tag =
   if s = "none" then TagNone
   else if String.length s > 5 && String.sub s 0 5 = "flag:" then TagFlag (n_of_int (int_of_string (String.sub s 5 (String.length s - 5))))
   else if String.length s > 8 && String.sub s 0 8 = "bitflag:" then TagBit (n_of_int (int_of_string (String.sub s 8 (String.length s - 8))))
   else TagBad
 
-let ints (s : string) : n list =
+let ints (s : String.t) : n list =
   if s = "-" then [] else List.map (fun x -> n_of_int (int_of_string x)) (String.split_on_char ',' s)
 
-let load_universe (path : string) : universe =
+let load_universe (path : String.t) : universe =
   let ic = open_in path in
   let structs = ref [] and enums = ref [] and reg = ref [] in
   let cur = ref None in
@@ -120,7 +120,7 @@ let load_universe (path : string) : universe =
 (* ---- gval text ---- *)
 exception Unsupported
 
-let parse_gval (s : string) : gval =
+let parse_gval (s : String.t) : gval =
   let p = ref 0 in
   let len = String.length s in
   let until_dot () =
@@ -226,9 +226,28 @@ and slist b l = List.iteri (fun i x -> if i > 0 then Buffer.add_string b ","; sh
 
 let show_gval v = let b = Buffer.create 256 in show b v; Buffer.contents b
 
+let read_lines_bytes (path : String.t) : n list list =
+  let ic = open_in_bin path in
+  let res = ref [] in
+  (try
+     while true do
+       let l = input_line ic in
+       let l = if String.length l > 0 && l.[String.length l - 1] = '\r' then String.sub l 0 (String.length l - 1) else l in
+       res := (List.init (String.length l) (fun i -> n_of_int (Char.code l.[i]))) :: !res
+     done
+   with End_of_file -> ());
+  close_in ic;
+  List.rev !res
+
 let () =
   let u = load_universe Sys.argv.(1) in
-  let gz : (string, string) Hashtbl.t = Hashtbl.create 64 in
+  (* schema files (optional): parsed by the extracted Coq parser; spec side of C02 *)
+  let schema =
+    if Array.length Sys.argv > 2 then
+      List.concat (List.map (fun p -> defs (parse_lines false (read_lines_bytes p)))
+                     (Array.to_list (Array.sub Sys.argv 2 (Array.length Sys.argv - 2))))
+    else [] in
+  let gz : (String.t, String.t) Hashtbl.t = Hashtbl.create 64 in
   let inflate (payload : n list) : n list option =
     match Hashtbl.find_opt gz (hex_of_bytes payload) with
     | Some "err" -> None
@@ -249,8 +268,14 @@ let () =
            | Ok b -> "ok:" ^ hex_of_bytes b
            | Err -> "err"
            | Panic -> "panic" in
-         ignore tid;
-         Printf.printf "%s\t%s\n" id r
+         let tidn = n_of_int (int_of_string tid) in
+         let sp =
+           if schema = [] then "-"
+           else if not (wt u (TPtr tidn) v) then "illtyped"
+           else match spec schema (abs u v) with
+             | Some b -> "ok:" ^ hex_of_bytes b
+             | None -> "none" in
+         Printf.printf "%s\t%s\t%s\n" id r sp
        with Unsupported -> Printf.printf "%s\tunsupported\n" id)
     | "D" :: id :: mode :: hints :: hx :: _ ->
       let bs = bytes_of_hex hx in
